@@ -20,7 +20,7 @@
    E. pkg/tuple splitting / joining index arithmetic and the rune decoder never leave the string.
    F. typesystem.hasCycle (model validation) walks every PATH of the computed-userset graph:
       its number of calls on a valid model of n+1 relations is 2^(n+2)-3 -- "validation cost is
-      polynomial in the model" is refuted (finding model_validation_exponential: a 1 KB model
+      polynomial in the model" is refuted (finding model_validation_hascycle_cost: a 1 KB model
       keeps WriteAuthorizationModel busy far beyond the request deadline).
 
    NOT covered by proof (explored by the driver only, see checks/C19.json): everything else the
